@@ -192,31 +192,113 @@ func init() {
 		pre := e.cur
 		e.havocAll()
 		if op.Fn != nil {
-			// a captured variable the operation only reads (no store through the free variable,
-			// not passed on to a nested closure) keeps its value: only the enclosing function and
-			// the closure can name the cell
-			for i, fv := range op.Fn.FreeVars {
-				if i >= len(op.Bind) || op.Bind[i] == nil || op.Bind[i].K != KPtr {
-					continue
-				}
-				readOnly := fv.Referrers() != nil
-				if readOnly {
-					for _, ref := range *fv.Referrers() {
-						if u, ok := ref.(*ssa.UnOp); !ok || u.Op != token.MUL {
-							readOnly = false
-						}
+			if ct := e.w.Contracts[op.Fn]; ct != nil {
+				// state invariants of the retried operation: an ensures clause tagged [inv.*] that
+				// mentions neither the result nor old() is required on entry (it is repeated as a
+				// requires clause, checked above) and re-established by every call, so it holds
+				// after any number of calls
+				nf := e.newFrame(op.Fn)
+				for i, fv := range op.Fn.FreeVars {
+					if i < len(op.Bind) {
+						nf.vals[fv] = op.Bind[i]
 					}
 				}
-				if readOnly {
-					a := e.addrOf(op.Bind[i])
-					e.store(e.cur, a, e.load(pre, a))
+				for _, cl := range ct.Ensures {
+					if !strings.HasPrefix(cl.Tag, "inv.") || strings.Contains(cl.Text, "result") || strings.Contains(cl.Text, "old(") {
+						continue
+					}
+					isReq := false
+					for _, rq := range ct.Requires {
+						if rq.Text == cl.Text {
+							isReq = true
+						}
+					}
+					if !isReq {
+						continue
+					}
+					e.restoreBindings(op, pre)
+					env := e.contractEnv(nf, ct, nil, e.cur, e.cur)
+					e.assume(env.trClause(cl))
 				}
 			}
 		}
+		if op.Fn != nil {
+			e.restoreBindings(op, pre)
+		}
 		return e.freshVal("retryerr", resT)
+	}
+	// bytes.Buffer: only the frame is modelled - Write changes nothing but the buffer object, Bytes
+	// returns some byte slice (its relation to what was written is not modelled)
+	nativeModels["(*bytes.Buffer).Write"] = func(e *Encoder, fr *frame, args []*SVal, ci ssa.CallInstruction, resT types.Type) *SVal {
+		e.trusted["(*bytes.Buffer).Write / Bytes: touch only the buffer object; the bytes returned by Bytes are unconstrained (the concatenation is not modelled)"] = true
+		tt := resT.(*types.Tuple)
+		return &SVal{K: KTuple, Typ: resT, Fields: []*SVal{{K: KScalar, Typ: tt.At(0).Type(), T: args[1].Len}, e.zero(tt.At(1).Type())}}
+	}
+	nativeModels["(*bytes.Buffer).Bytes"] = func(e *Encoder, fr *frame, args []*SVal, ci ssa.CallInstruction, resT types.Type) *SVal {
+		e.trusted["(*bytes.Buffer).Write / Bytes: touch only the buffer object; the bytes returned by Bytes are unconstrained (the concatenation is not modelled)"] = true
+		r := e.freshVal("bufbytes", resT)
+		e.typeInvariant(r)
+		return r
+	}
+	// gopacket layer metadata: pure, and never nil (every CanDecode in the module and in gopacket/layers
+	// returns a LayerType value, which is a non-nil LayerClass)
+	nativeModels["(gopacket.DecodingLayer).CanDecode"] = func(e *Encoder, fr *frame, args []*SVal, ci ssa.CallInstruction, resT types.Type) *SVal {
+		e.trusted["DecodingLayer.CanDecode() / LayerClass.LayerTypes() have no side effects; CanDecode returns a non-nil LayerClass (every implementation returns a LayerType value)"] = true
+		r := e.freshVal("layerclass", resT)
+		e.assumeFact(e.c.Not(e.c.Eq(r.Tag, e.c.Int(0))))
+		return r
+	}
+	nativeModels["(gopacket.LayerClass).LayerTypes"] = func(e *Encoder, fr *frame, args []*SVal, ci ssa.CallInstruction, resT types.Type) *SVal {
+		e.trusted["DecodingLayer.CanDecode() / LayerClass.LayerTypes() have no side effects; CanDecode returns a non-nil LayerClass (every implementation returns a LayerType value)"] = true
+		r := e.freshVal("layertypes", resT)
+		e.typeInvariant(r)
+		return r
+	}
+	nativeModels["(github.com/google/gopacket.DecodingLayerArray).Put"] = func(e *Encoder, fr *frame, args []*SVal, ci ssa.CallInstruction, resT types.Type) *SVal {
+		// registers d under d.CanDecode().LayerTypes(): d must not be nil (method call on it); nothing
+		// the caller can observe changes except the returned container
+		c := e.c
+		e.trusted["gopacket.DecodingLayerArray.Put(d): calls d.CanDecode() (so d must be non-nil), records d and returns a non-nil container; no other effect"] = true
+		d := args[1]
+		nz := c.Not(c.Eq(d.Tag, c.Int(0)))
+		if !nz.IsTrue() {
+			e.oblige("nil", fr.anchorFor(e, ci.Value(), "Put")+":d.CanDecode", "DecodingLayerArray.Put calls a method on its argument: it must not be a nil interface value", nz, ci.Pos())
+			e.assume(nz)
+		}
+		r := e.freshVal("dlc", resT)
+		e.assumeFact(c.Not(c.Eq(r.Tag, c.Int(0))))
+		if t := e.w.lookupTypeByName("github.com/google/gopacket.DecodingLayerArray"); t != nil {
+			r.Dyn = t
+			e.assumeFact(c.Eq(r.Tag, c.Int(int64(e.w.typeTag(t)))))
+		}
+		return r
 	}
 	nativeModels["(context.Context).Err"] = func(e *Encoder, fr *frame, args []*SVal, ci ssa.CallInstruction, resT types.Type) *SVal {
 		return e.freshVal("ctxerr", resT)
+	}
+}
+
+// restoreBindings: a captured variable the operation only reads (no store
+// through the free variable, not passed on to a nested closure) keeps its
+// value across the calls: only the enclosing function and the closure can
+// name the cell.
+func (e *Encoder) restoreBindings(op *SVal, pre *State) {
+	for i, fv := range op.Fn.FreeVars {
+		if i >= len(op.Bind) || op.Bind[i] == nil || op.Bind[i].K != KPtr {
+			continue
+		}
+		readOnly := fv.Referrers() != nil
+		if readOnly {
+			for _, ref := range *fv.Referrers() {
+				if u, ok := ref.(*ssa.UnOp); !ok || u.Op != token.MUL {
+					readOnly = false
+				}
+			}
+		}
+		if readOnly {
+			a := e.addrOf(op.Bind[i])
+			e.store(e.cur, a, e.load(pre, a))
+		}
 	}
 }
 
